@@ -6,7 +6,7 @@ import Dawn.Model.Pickle
     encold <p|n> <graph>     → same with the batch re-encode of D2 (regression witness only)
     dec <n|h|H> <hex bytes>  → `ok <graph>` | `err` | `nil` | `either ok` | `either nil`
                                n = nil Unpickler, h = the harness's host (name starting `!` → error, `?` → run-time
-                               panic), H = h plus (`#` → panic with a non-error value)
+                               panic), H = h plus (`#` → panic with a non-error value), E = dawn's envUnpickler (`envHost`)
     decold <n|h|H> <hex>     → same with the BININT2 decoding of D1 (regression witness only)
 
   graph   := <val> `|` <obj> `;` <obj> …          objects in address order, `r<k>` refers to object k
@@ -165,7 +165,7 @@ def canon (heap : Heap) (root : Val) : Graph :=
   ⟨st.out.toList, r⟩
 
 /-- the unpickler of the harness (`harness/pickle`): decided by the first byte of the name -/
-def testHost (insane : Bool) (_module name : Bytes) (_args : List Val) : HostVerdict :=
+def testHost (insane : Bool) (_h : Heap) (_a : Nat) (_module name : Bytes) (_args : List Val) : HostVerdict :=
   match name with
   | 0x21 :: _ => .error
   | 0x3f :: _ => .runtimePanic
@@ -189,6 +189,7 @@ def decCfg (old : Bool) (flag : String) (undecided : Bool) : Option DecCfg :=
   | "n" => some { oldBinint2 := old, parseInt := pi, host := none }
   | "h" => some { oldBinint2 := old, parseInt := pi, host := some (testHost false) }
   | "H" => some { oldBinint2 := old, parseInt := pi, host := some (testHost true) }
+  | "E" => some { oldBinint2 := old, parseInt := pi, host := some envHost }      -- dawn's envUnpickler
   | _ => none
 
 def showOutcome : Outcome → String
@@ -217,6 +218,8 @@ def doEnc (old : Bool) (flag gs : String) : String :=
   | some g =>
     -- the hypotheses of C07_roundtrip are re-checked on every graph the harness generates
     if !(g.heap.keysOK && g.sizesOK) then "outside-hypotheses-of-C07_roundtrip" else
+    -- and so is the harness's canonicalisation target, by the encoder-independent test of C07_total
+    if !g.canonical then "not-canonical" else
     match encode { rebatch := old, pickler := flag == "p" } g with
     | some bs => "ok " ++ hexB bs
     | none => "err"
